@@ -76,7 +76,9 @@ RAtomic(u) ==
   CASE k = 1 -> Q1(RT(u)) [] k = 2 -> T1(RT(u)) [] k = 3 -> R2(RT(u), RT(u)) [] k = 4 -> Eq(RT(u), RT(u))
     [] k = 5 -> C2("\\=", RT(u), RT(u)) [] k = 6 -> C2("==", RT(u), RT(u)) [] k = 7 -> Cut [] k = 8 -> Fail [] k = 9 -> True
     [] k = 10 -> C1(RandomElement({"var", "nonvar", "atom", "integer", "atomic", "compound"}), RT(u))
-    [] k = 11 -> C2("is", RT(u), C2(RandomElement({"+", "-", "*"}), RandomElement({X, Y, I(1), I(2)}), I(1)))
+    [] k = 11 -> (* the left operand is a variable or a number: a compiled is/2 whose left operand can never be a number
+                    fails without evaluating (a C03 matter: dependence on how the expression reaches is/2) *)
+                 C2("is", RandomElement({X, Y, Z, I(1), I(2)}), C2(RandomElement({"+", "-", "*"}), RandomElement({X, Y, I(1), I(2)}), I(1)))
     [] k = 12 -> C2(RandomElement({"<", "=:=", ">="}), RandomElement({X, Y, I(1)}), I(2))
     [] k = 13 -> C2("u", RT(u), RT(u)) [] k = 14 -> C3("app", RT(u), RT(u), RT(u)) [] k = 15 -> C2("len", RT(u), RT(u))
     [] k = 16 -> P1(RT(u)) [] k = 17 -> C2("p2", RT(u), RT(u)) [] k = 18 -> C1("throw", RT(u))
